@@ -1010,6 +1010,7 @@ func modeChurn(args []string) {
 			if time.Since(time.Unix(0, atomic.LoadInt64(&progress))) > 40*time.Second {
 				emit(churnResult{Mode: current.Load().(string), Note: "no progress for 40 s: the server no longer answers (a registry query, the accept path, a connection's release or Stop does not return)"})
 				out.Flush()
+				p.cleanup() // (deferred calls do not run on os.Exit)
 				os.Exit(0)
 			}
 		}
@@ -1102,7 +1103,8 @@ func modeChurn(args []string) {
 				res.Note = "Stop did not return within 15 s"
 				emit(res)
 				out.Flush()
-				os.Exit(0) // the server is wedged: nothing more can be learnt from this process
+				p.cleanup() // (deferred calls do not run on os.Exit)
+				os.Exit(0)  // the server is wedged: nothing more can be learnt from this process
 			}
 		}
 		if stopWithOpen {
@@ -1265,6 +1267,7 @@ func runLife(p *pki, cfg, seq string) (lifeObs, bool) {
 					o.Problems = append(o.Problems, tag+": Stop did not return within 15 s")
 					emit(o)
 					out.Flush()
+					p.cleanup() // (deferred calls do not run on os.Exit)
 					os.Exit(0)
 				}
 				o.Steps = append(o.Steps, fmt.Sprintf("X:%v", err == nil))
@@ -1720,6 +1723,7 @@ func modeWitness(args []string) {
 	s, err := startSUT(p, "plain", false, "")
 	if err != nil {
 		fmt.Fprintln(os.Stderr, "start:", err)
+		p.cleanup() // (deferred calls do not run on os.Exit)
 		os.Exit(3)
 	}
 	deadline := time.Now().Add(time.Duration(secs) * time.Second)
@@ -1822,6 +1826,7 @@ func modeRaceStress(args []string) {
 	s, err := startSUT(p, "both", true, "")
 	if err != nil {
 		fmt.Fprintln(os.Stderr, "start:", err)
+		p.cleanup() // (deferred calls do not run on os.Exit)
 		os.Exit(3)
 	}
 	// a second Server value in the same process (an application may well run two: a cache and a queue, a public and an admin
@@ -1830,6 +1835,7 @@ func modeRaceStress(args []string) {
 	s2, err2 := startSUT(p, "plain", false, "")
 	if err2 != nil {
 		fmt.Fprintln(os.Stderr, "start second server:", err2)
+		p.cleanup() // (deferred calls do not run on os.Exit)
 		os.Exit(3)
 	}
 	defer s2.srv.Stop()
